@@ -155,6 +155,27 @@ theorem replace_with_many_effect {h h' : Heap} {x p : Nat} {ys pre post : List N
     h'.kids p = pre.filter (fun k => !ys.contains k) ++ ys ++ post.filter (fun k => !ys.contains k) ∧ h'.parent x = none :=
   BS.Heap.replaceWith_many_effect hg hp hnd hxy hpy hk hne hsplit hr
 
+/-! ### negative positions: `insert` reads its position the way `list.insert` does -/
+
+/-- a non-negative position is itself -/
+theorem normPos_nonneg (n : Nat) (z : Int) (hz : 0 ≤ z) : normPos n z = z.toNat := by
+  unfold normPos; simp [Int.not_lt.mpr hz]
+
+/-- `-k` stands for `len - k`, and for `0` when `k` exceeds the length (never an error) -/
+theorem normPos_neg (n k : Nat) (hk : 0 < k) : normPos n (-(k : Int)) = n - k := by
+  unfold normPos
+  have : (-(k : Int)) < 0 := by omega
+  simp only [this, if_true, Int.ofNat_eq_natCast]
+  omega
+
+/-- whatever the integer, the slot is one of the `len + 1` slots of the children list once clamped (what `insertCore` does next) -/
+theorem normPos_clamped (n : Nat) (z : Int) : min (normPos n z) n ≤ n := Nat.min_le_right _ _
+
+/-- `insert` with any Python integer IS an `insert` with a natural position: every theorem about `insert` (consistency: C01
+    `every_call_keeps_consistent`; effect: `insert_one_effect`, `insert_many_contiguous`) applies to it verbatim -/
+theorem insertZ_is_insert (h : Heap) (p : Nat) (z : Int) (args : List Arg) :
+    insertZ h p z args = insert h p (normPos (h.kids p).length z) args := rfl
+
 /-! non-vacuity: the calls succeed on a concrete tree (`t0` with children `[1,2,3,4]`) and give the stated lists -/
 def wFour : Except Err Heap :=
   run (Heap.init [.tag, .tag, .tag, .tag, .tag])
@@ -169,6 +190,9 @@ example : (wFour.bind fun h => (setString h 0 .str [120]).map (fun h => (h.kids 
 example : (wFour.bind fun h => (insertBefore h 2 [.node 4, .node 1]).map (·.kids 0)).toOption = some [4, 1, 2, 3] := by decide
 example : (wFour.bind fun h => (insertAfter h 2 [.node 4, .node 1]).map (·.kids 0)).toOption = some [2, 4, 1, 3] := by decide
 example : (wFour.bind fun h => (replaceWith h 2 [.node 4, .node 1]).map (fun h => (h.kids 0, h.parent 2))).toOption = some ([4, 1, 3], none) := by decide
+example : (wFour.bind fun h => (insertZ h 0 (-1) [.node 1]).map (·.1.kids 0)).toOption = some [2, 3, 1, 4] := by decide
+example : (wFour.bind fun h => (insertZ h 0 (-4) [.node 4]).map (·.1.kids 0)).toOption = some [4, 1, 2, 3] := by decide
+example : (wFour.bind fun h => (insertZ h 0 (-9) [.node 3]).map (·.1.kids 0)).toOption = some [3, 1, 2, 4] := by decide
 def wFive : Except Err Heap :=
   run (Heap.init [.tag, .tag, .tag, .tag, .tag, .tag])
     [.append 0 (.node 1), .append 0 (.node 2), .append 0 (.node 3), .append 5 (.node 4)]
